@@ -25,6 +25,9 @@ THEOREMS = ["C03_excitation_formula", "C03_recombination_uses_next_charge", "C03
             "C03_thermalcx_nonneg", "C03_linear_in_density", "C03_history_independent"]
 
 GL_ORDER = 8
+CONST_ORDER = ["RECIP_2_PI", "RECIP_4_PI", "DEGREES_TO_RADIANS", "RADIANS_TO_DEGREES", "ATOMIC_MASS", "ELEMENTARY_CHARGE",
+               "SPEED_OF_LIGHT", "PLANCK_CONSTANT", "HC_EV_NM", "ELECTRON_CLASSICAL_RADIUS", "ELECTRON_REST_MASS",
+               "RYDBERG_CONSTANT_EV", "VACUUM_PERMITTIVITY", "BOHR_MAGNETON"]
 
 
 # ---------------------------------------------------------------------------------------------------
@@ -72,7 +75,36 @@ def coq_tab(tab):
 # ---------------------------------------------------------------------------------------------------
 # generators
 # ---------------------------------------------------------------------------------------------------
+class Style(str):
+    """'dyadic' (small dyadic values, products exact in double) or 'real' (realistic magnitudes); a sequence of the real
+    style carries binary scale exponents for all its densities / temperatures (the emission formulas are homogeneous in
+    the densities, so 2^+-200 must not change anything but the magnitude)"""
+    dscale = 0
+    tscale = 0
+
+
+def mk_style(name, dscale=0, tscale=0):
+    st = Style(name)
+    st.dscale, st.tscale = dscale, tscale
+    return st
+
+
+# exact boundary values of the `<= 0` comparisons: signed zero, the smallest subnormal, the smallest normal, tiny and
+# large values (dyadic style only: all other factors are then O(1..100), so the double result is exact up to 2^-800)
+BOUNDARY_ANY = [-0.0, 0.0, 5e-324, -5e-324, 2.0 ** -1022, -2.0 ** -1022, 2.0 ** -500, -2.0 ** -500, 2.0 ** 60, -2.0 ** 60]
+BOUNDARY_POS = [5e-324, 2.0 ** -1022, 2.0 ** -500, 2.0 ** 60]
+
+
+def boundary(rng, style, allow_bad):
+    if style == "dyadic" and rng.random() < (0.07 if allow_bad else 0.03):
+        return rng.choice(BOUNDARY_ANY if allow_bad else BOUNDARY_POS)
+    return None
+
+
 def gen_density(rng, style, allow_bad=True, bad=1.0):
+    bv = boundary(rng, style, allow_bad)
+    if bv is not None:
+        return bv
     r = rng.random() / bad if bad > 0 else 1.0
     if allow_bad and r < 0.07:
         return 0.0
@@ -80,10 +112,13 @@ def gen_density(rng, style, allow_bad=True, bad=1.0):
         return -gen_density(rng, style, False)
     if style == "dyadic":
         return rng.randint(1, 96) / 16.0
-    return 10.0 ** rng.uniform(15, 21)
+    return 10.0 ** rng.uniform(15, 21) * 2.0 ** getattr(style, "dscale", 0)
 
 
 def gen_temperature(rng, style, allow_bad=True, bad=1.0):
+    bv = boundary(rng, style, allow_bad)
+    if bv is not None:
+        return bv
     r = rng.random() / bad if bad > 0 else 1.0
     if allow_bad and r < 0.05:
         return 0.0
@@ -91,14 +126,28 @@ def gen_temperature(rng, style, allow_bad=True, bad=1.0):
         return -gen_temperature(rng, style, False)
     if style == "dyadic":
         return rng.randint(1, 128) / 8.0
-    return 10.0 ** rng.uniform(-1, 4)
+    return 10.0 ** rng.uniform(-1, 4) * 2.0 ** getattr(style, "tscale", 0)
+
+
+def gen_forms(rng, case):
+    """unusual but valid argument forms and attachment routes of one model instance"""
+    case["form_seed"] = rng.randrange(1 << 30)
+    case["route"] = "manager" if rng.random() < 0.3 else "ctor"
+    case["charge_form"] = rng.choice(["int", "int", "np_int", "bool"])
+    case["cfg"]["rate_form"] = rng.choice(["float", "float", "np64", "int"])
+    if rng.random() < 0.3:
+        case["shape_args"] = ([rng.randint(0, 9)], [("tag", rng.randint(0, 9))])
+    if case["comp"] and rng.random() < 0.12:
+        case["dup"] = (rng.randrange(len(case["comp"])), float(rng.randint(1, 64)), float(rng.randint(1, 64)))
+    return case
 
 
 def gen_cfg(rng, style, total=False):
     return {"salt": rng.randint(0, 63), "sgn": -1.0 if rng.random() < 0.15 else 1.0,
             "cn": 0.25 if style == "dyadic" else 2.0 ** -64, "ct": 0.0625 if style == "dyadic" else 2.0 ** -12,
             "cd": 2.0 ** -6 if style == "dyadic" else 2.0 ** -24,
-            "missing": (rng.choice([1, 2, 4, 3, 5, 6, 7]) if rng.random() < 0.3 else 0) if total else 0}
+            "missing": (rng.choice([1, 2, 4, 3, 5, 6, 7]) if rng.random() < 0.3 else 0) if total else 0,
+            "rate_form": rng.choice(["float", "float", "np64", "int"])}
 
 
 def gen_comp(impl, rng, style, want, n_extra, drop_prob):
@@ -133,15 +182,18 @@ def gen_line_case(impl, rng, kind, style):
     want = [(e, c)] if kind == 1 else [(e, c + 1)]
     if rng.random() < 0.5:
         want.append((e, c + 1) if kind == 1 else (e, c))          # the "other" charge state, so that Z vs Z+1 matters
-    comp = gen_comp(impl, rng, style, want, rng.randint(0, 6), 0.08)
-    return {"kind": kind, "style": style, "cfg": gen_cfg(rng, style), "line": (e, c, rng.randrange(len(impl.TRANS))),
-            "ne": gen_density(rng, style, bad=0.5), "te": gen_temperature(rng, style, bad=0.5), "comp": comp}
+    comp = gen_comp(impl, rng, style, want, rng.choice([0, 0, 1, 2, 3, 4, 5, 6, 8, 9, 10]), 0.08)
+    if rng.random() < 0.02:
+        comp = []                                           # empty composition
+    return gen_forms(rng, {"kind": kind, "style": style, "cfg": gen_cfg(rng, style), "line": (e, c, rng.randrange(len(impl.TRANS))),
+                           "ne": gen_density(rng, style, bad=0.5), "te": gen_temperature(rng, style, bad=0.5), "comp": comp})
 
 
 def gen_window(rng):
     minw = dyadic(rng, 100, 800, 3)
     width = dyadic(rng, 0.5, 200, 3)
-    return minw, minw + width, rng.randint(1, 6)
+    sc = 2.0 ** rng.choice([0, 0, 0, -20, 20, -3, 7])        # the window in other units / far ranges (exact scaling)
+    return minw * sc, (minw + width) * sc, rng.choice([1, 1, 2, 2, 3, 4, 5, 6, 9, 10, 11])
 
 
 def gen_total_case(impl, rng, style):
@@ -149,11 +201,11 @@ def gen_total_case(impl, rng, style):
     z = impl.znum(e)
     c = rng.choice([-1, z, z + 1]) if rng.random() < 0.06 else rng.randint(0, z - 1)
     want = [(e, c), (e, c + 1)] + [(h, 0) for h in impl.HYD if rng.random() < 0.6]
-    comp = gen_comp(impl, rng, style, want, rng.randint(0, 4), 0.06)
+    comp = gen_comp(impl, rng, style, want, rng.choice([0, 0, 1, 2, 3, 4, 7, 8]), 0.06)
     minw, maxw, bins = gen_window(rng)
-    return {"kind": 4, "style": style, "cfg": gen_cfg(rng, style, total=True), "elem": e, "charge": c,
-            "ne": gen_density(rng, style, bad=0.5), "te": gen_temperature(rng, style, bad=0.5), "comp": comp,
-            "minw": minw, "maxw": maxw, "bins": bins}
+    return gen_forms(rng, {"kind": 4, "style": style, "cfg": gen_cfg(rng, style, total=True), "elem": e, "charge": c,
+                           "ne": gen_density(rng, style, bad=0.5), "te": gen_temperature(rng, style, bad=0.5), "comp": comp,
+                           "minw": minw, "maxw": maxw, "bins": bins})
 
 
 SEQ_LEN = 3
@@ -201,6 +253,33 @@ def make_sequence(impl, rng, base, length=SEQ_LEN):
         elif r < 0.16:
             rng.shuffle(comp)
         st["comp"] = comp
+        if "dup" in st and (not comp or rng.random() < 0.2):
+            st = {k: v for k, v in st.items() if k != "dup"}
+        # a public mutation route between the two evaluations (the model is notified and must re-populate, or not)
+        kind = base["kind"]
+        if kind == 6:
+            op = rng.choice(["none"] * 3 + ["gaunt_user", "gaunt_user", "gaunt_none", "gaunt_none", "integrator", "integrator",
+                                            "ad_same", "plasma_same", "edist", "models_reset"])
+            if op == "gaunt_user":
+                st["gaunt"], st["via_provider"] = gen_gaunt(rng), False
+            elif op == "gaunt_none":
+                st["gaunt"], st["via_provider"] = gen_gaunt(rng), True
+            elif op == "integrator":
+                st["tight"] = not prev["tight"]
+        else:
+            op = rng.choice(["none"] * 7 + ["ad_new", "ad_new", "ad_same", "plasma_same", "edist", "models_reset"])
+            if op == "ad_new":
+                st["cfg"] = gen_cfg(rng, style, total=(kind == 4))
+        if op == "models_reset" and base.get("route") != "manager":
+            op = "none"
+        st["op"] = op
+        if kind in (4, 6):
+            st["baseline"] = rng.choice([None, None, 1.0, -3.5, 2.0 ** 40, 2.0 ** -40])
+        if kind in (4, 6) and rng.random() < 0.3:             # the observer's spectral window changes between calls
+            if kind == 4:
+                st["minw"], st["maxw"], st["bins"] = gen_window(rng)
+            else:
+                st.update(gen_brems_window(rng))
         steps.append(st)
     return steps
 
@@ -215,27 +294,67 @@ def gen_bremsfn_case(rng, style):
     for _ in range(n):
         z = float(rng.randint(0, 18)) if rng.random() < 0.7 else dyadic(rng, 0.5, 10, 3)
         zs.append((z, gen_density(rng, style)))
+    forms = ["list", "list", "list", "tuple", "tuple", "int", "int", "np_int", "np_int", "np32", "np32", "np64", "np64", "readonly", "noncontig"]
     return {"kind": 5, "style": style, "gaunt": gen_gaunt(rng), "ne": gen_density(rng, style, False),
-            "te": rng.randint(2, 4000) / 4.0 if style == "dyadic" else 10.0 ** rng.uniform(-0.5, 3.7),
-            "zs": zs, "wvl": dyadic(rng, 50, 2000, 2) if style == "dyadic" else rng.uniform(50, 2000)}
+            "te": gen_temperature(rng, style, False),
+            "zs": zs, "wvl": dyadic(rng, 50, 2000, 2) if style == "dyadic" else rng.uniform(50, 2000),
+            "forms": (rng.choice(forms), rng.choice(forms)), "scalar_form": rng.choice(["float", "int", "np64", "np32"])}
+
+
+def gen_brems_window(rng):
+    minw = dyadic(rng, 200, 900, 2)
+    bins = rng.choice([1, 1, 2, 2, 3])
+    width = bins * dyadic(rng, 1, 0.08 * minw, 2)
+    return {"minw": minw, "maxw": minw + width, "bins": bins}
 
 
 def gen_brems_case(impl, rng, style):
-    comp = gen_comp(impl, rng, style, [], rng.randint(1, 7), 0.0)
-    minw = dyadic(rng, 200, 900, 2)
-    bins = rng.randint(1, 3)
-    width = bins * dyadic(rng, 1, 0.08 * minw, 2)
-    return {"kind": 6, "style": style, "gaunt": gen_gaunt(rng), "ne": gen_density(rng, style),
-            "te": (rng.randint(4, 4000) / 4.0 if style == "dyadic" else 10.0 ** rng.uniform(0, 3.7))
-                  * (1 if rng.random() > 0.08 else rng.choice([0, -1])),
-            "comp": comp, "minw": minw, "maxw": minw + width, "bins": bins,
-            "tight": rng.random() < 0.5, "via_provider": rng.random() < 0.7}
+    comp = gen_comp(impl, rng, style, [], rng.choice([0, 1, 1, 2, 3, 4, 5, 6, 7, 9, 10]), 0.0)
+    case = {"kind": 6, "style": style, "gaunt": gen_gaunt(rng), "ne": gen_density(rng, style),
+            "te": gen_temperature(rng, style, bad=1.2), "comp": comp,
+            "tight": rng.random() < 0.5, "via_provider": rng.random() < 0.7,
+            "integrator_by": rng.choice(["ctor", "setter"]), "cfg": {}}
+    case.update(gen_brems_window(rng))
+    case = gen_forms(rng, case)
+    del case["cfg"]
+    return case
+
+
+def gen_gaunt_case(rng, consts):
+    """InterpolatedFreeFreeGauntFactor / MaxwellianFreeFreeGauntFactor: u from far below to far above the table, all z
+    including 0 and fractional, and (custom tables) a table bound placed exactly on the u / gamma2 of the case or one ulp
+    beside it"""
+    ph = consts["PLANCK_CONSTANT"] * consts["SPEED_OF_LIGHT"] * 1e9 / consts["ELEMENTARY_CHARGE"]
+    wvl = dyadic(rng, 50, 2000, 2)
+    te = ph / (wvl * 2.0 ** rng.uniform(-16, 16))
+    z = rng.choice([0.0, 1.0, 1.0, 2.0, 6.0, 18.0, 0.5, 74.0])
+    case = {"kind": 8, "z": z, "te": te, "wvl": wvl, "entry": rng.choice(["call", "evaluate"]), "table": "maxwellian"}
+    if rng.random() < 0.6:
+        u_d, g2_d = ph / (te * wvl), z * z * consts["RYDBERG_CONSTANT_EV"] / te
+        ug = [2.0 ** k for k in sorted(rng.sample(range(-12, 13), 5))]
+        gg = [2.0 ** k for k in sorted(rng.sample(range(-20, 21), 5))]
+        where = rng.choice(["none", "umax", "umin", "g2max", "g2min"])
+        val = u_d if where[0] == "u" else g2_d
+        if where != "none" and val > 0:
+            # the table bound sits exactly on the case's u / gamma2, or one ulp below / above it
+            val = rng.choice([val, float(np.nextafter(val, 0.0)), float(np.nextafter(val, np.inf))])
+            grid = sorted(val * 2.0 ** (-k if where.endswith("max") else k) for k in (0, 2, 5, 7, 9))
+            if where[0] == "u":
+                ug = grid
+            else:
+                gg = grid
+        else:
+            where = "none"
+        case.update(table="custom", ugrid=ug, g2grid=gg, boundary=where,
+                    values=[[dyadic(rng, 0.5, 2.5, 6) for _ in gg] for _ in ug])
+    return case
 
 
 def gen_radfn_case(rng):
     minw, maxw, bins = gen_window(rng)
     return {"kind": 7, "phi": rng.choice([0.0, -1.0]) * dyadic(rng, 0, 8, 3) if rng.random() < 0.2 else 10.0 ** rng.uniform(-3, 8),
-            "minw": minw, "maxw": maxw, "bins": bins}
+            "minw": minw, "maxw": maxw, "bins": bins, "form": rng.choice(["callable", "number", "constant3d"]),
+            "baseline": rng.choice([None, 1.0, -3.5, 2.0 ** 40])}
 
 
 # ---------------------------------------------------------------------------------------------------
@@ -257,7 +376,10 @@ class Oracles:
 
     def exp_entry(self, te, wvl):
         key = -self.expf / (Fraction(te) * Fraction(wvl))
-        return (key, math.exp(float(key)))
+        try:
+            return (key, math.exp(float(key)))
+        except OverflowError:                       # te so small that the argument is below every double: exp underflows to 0
+            return (key, 0.0)
 
     def coq_consts(self):
         return "(mkConsts %s %s %s %s %s %s %s)" % tuple(qlit(v) for v in (self.e, self.c, self.h, self.me, self.eps0, self.pi, self.r4pi))
@@ -338,7 +460,7 @@ def documented_total(impl, case):
 
 
 def near(x, want, mag, rel=1e-12):
-    return abs(Fraction(x) - want) <= Fraction(rel) * mag + Fraction(10) ** -300
+    return abs(Fraction(x) - want) <= Fraction(rel) * mag + Fraction(10) ** -240
 
 
 def scaled(case, key, factor):
@@ -382,7 +504,7 @@ def search_linearity(impl, case, obs):
     mag = float(mag)
     o2 = impl.run_line(scaled(case, (e, tc), 2.0))
     r2 = o2["out"][1] if isinstance(o2["out"], tuple) else None
-    if r2 is None or abs(r2 - 2 * r1) > 1e-12 * 2 * mag:
+    if r2 is None or abs(r2 - 2 * r1) > 1e-12 * 2 * mag + 1e-240:
         fails.append({"claim": "emission is linear in the density of the emitting / receiving ion", "observed": [r1, r2]})
     if case["kind"] == 3:
         for (de, dc, nd, td) in case["comp"]:
@@ -392,7 +514,7 @@ def search_linearity(impl, case, obs):
             r3 = o3["out"][1] if isinstance(o3["out"], tuple) else None
             ni = [s for s in case["comp"] if (s[0], s[1]) == (e, tc)][0][2]
             term = float(INV4PI * impl.frac(ni) * impl.frac(nd) * stub3_exact(impl, case["cfg"], de, dc, e, tc, t, case["ne"], case["te"], td))
-            if r3 is None or abs((r3 - r1) - term) > 1e-12 * 3 * mag:
+            if r3 is None or abs((r3 - r1) - term) > 1e-12 * 3 * mag + 1e-240:
                 fails.append({"claim": "emission is linear in each donor density", "donor": [de, dc], "observed": [r1, r3],
                               "expected_increment": term})
             break
@@ -407,13 +529,15 @@ def search_gaussian(impl, case):
     what, want, mag = documented_line(impl, case)
     if what == "err":
         return []
+    if tgt and tgt[0][3] > 0 and not 1e-3 <= tgt[0][3] <= 1e5:
+        return []       # thermal width below double resolution or wider than the window: the line shape is property C02's business
     obs = impl.run_line(case, lineshape=impl.GaussianLine, window=(impl.WAVELENGTH - 40.0, impl.WAVELENGTH + 40.0, 400))
     if obs["out"] != "Spectrum":
         return [{"claim": "emission() works with GaussianLine", "observed": obs["out"]}]
     total = sum(obs["samples"]) * obs["delta"]
     ti = tgt[0][3]
     expect = float(want) if ti > 0 else 0.0
-    if abs(total - expect) > 1e-9 * float(mag) + 1e-300:
+    if abs(total - expect) > 1e-9 * float(mag) + 1e-240:
         return [{"claim": "wavelength-integrated emission with GaussianLine equals the documented expression "
                           "(zero for a non-positive ion temperature)", "observed": total, "expected": expect}]
     return []
@@ -453,9 +577,9 @@ def brems_reference(impl, orc, case, wvl):
         if ch > 0 and n > 0:
             tot += n * (g0 + g1 * ch + g2 * wvl + g3 * te) * ch * ch
     pref = (e ** 2 / (4 * math.pi * eps0)) ** 3 * 32 * math.pi ** 2 / (3 * math.sqrt(3) * me ** 2 * c ** 3)
-    pref *= math.sqrt(2 * me / (math.pi * e * te))
+    pref *= math.sqrt(2 * me / (math.pi * e)) / math.sqrt(te)
     nu_to_nm = c * 1e9 / wvl ** 2
-    return pref * ne * tot * math.exp(-h * c * 1e9 / (e * te * wvl)) * nu_to_nm / (4 * math.pi)
+    return pref * ne * tot * math.exp(-(h * c * 1e9 / e) / te / wvl) * nu_to_nm / (4 * math.pi)
 
 
 def search_brems(impl, orc, case, obs):
@@ -468,7 +592,7 @@ def search_brems(impl, orc, case, obs):
     for i in range(case["bins"]):
         a, b = case["minw"] + i * delta, case["minw"] + (i + 1) * delta
         ref = 0.5 * (b - a) * sum(wk * brems_reference(impl, orc, case, 0.5 * (a + b) + 0.5 * (b - a) * xk) for xk, wk in zip(x, w)) / delta
-        if abs(s[i] - ref) > (3e-5 if not case["tight"] else 1e-9) * abs(ref) + 1e-300:
+        if abs(s[i] - ref) > (3e-5 if not case["tight"] else 1e-9) * abs(ref) + 1e-240:
             fails.append({"claim": "bin value is the bin average of the Hutchinson free-free formula with the provider's Gaunt factor",
                           "bin": i, "observed": s[i], "expected": ref})
             break
@@ -513,10 +637,14 @@ def run(ctx):
     tie = ("Require Import Cherab.Common.Qx Cherab.Model.C03_Passive Cherab.Model.C03_Brems Cherab.Model.C03_Check.\n"
            "Open Scope Q_scope.\n"
            "Definition gen_consts : consts := %s.\n"
-           "Lemma consts_ok : consts_wf gen_consts = true.\nProof. vm_compute. reflexivity. Qed.\n" % orc.coq_consts())
+           "Lemma consts_ok : consts_wf gen_consts = true.\nProof. vm_compute. reflexivity. Qed.\n"
+           "Definition gen_all : list Q := %s.\n"
+           "Lemma consts_all_ok : consts_all_wf gen_all = true.\nProof. vm_compute. reflexivity. Qed.\n"
+           % (orc.coq_consts(), coq_ql([consts[n] for n in CONST_ORDER])))
     tie_path = ctx.write_gen("Consts.v", tie)
     ok, out = coqc(tie_path)
-    ctx.obligation("Gen tie: constants.pyx gives the CODATA 2018 values, RECIP_4_PI and M_PI of the model (consts_ok)", "tie", ok, out)
+    ctx.obligation("Gen tie: constants.pyx gives the CODATA 2018 values, RECIP_4_PI and M_PI of the model (consts_ok) and every "
+                   "other constant of the file its documented value (consts_all_ok)", "tie", ok, out)
     consts_bad = not ok
 
     # ---- cases ----------------------------------------------------------------------------------------
@@ -525,16 +653,25 @@ def run(ctx):
     n_bfn = 30 if quick else 500
     n_brm = 20 if quick else 300
     n_rfn = 15 if quick else 200
+    n_gnt = 40 if quick else 600
     # sequences: one model instance evaluated at SEQ_LEN points of one plasma (single-point kinds: sequences of one)
     seqs = []
     nseq = lambda n: -(-n // SEQ_LEN)
-    for style in ("dyadic", "real"):
+    def styles(name):
+        """a fresh style per sequence: the real style draws binary scale exponents for densities and temperatures"""
+        if name == "dyadic":
+            return mk_style("dyadic")
+        return mk_style("real", rng.choice([0, 0, 0, -200, -100, -30, 30, 100, 200]), rng.choice([0, 0, 0, -40, 40]))
+
+    for name in ("dyadic", "real"):
         for kind in (1, 2, 3):
-            seqs += [make_sequence(impl, rng, gen_line_case(impl, rng, kind, style)) for _ in range(nseq(n_line))]
-        seqs += [make_sequence(impl, rng, gen_total_case(impl, rng, style)) for _ in range(nseq(n_total))]
-        seqs += [[gen_bremsfn_case(rng, style)] for _ in range(n_bfn)]
-        seqs += [make_sequence(impl, rng, gen_brems_case(impl, rng, style)) for _ in range(nseq(n_brm))]
+            seqs += [make_sequence(impl, rng, gen_line_case(impl, rng, kind, styles(name))) for _ in range(nseq(n_line))]
+        seqs += [make_sequence(impl, rng, gen_total_case(impl, rng, styles(name))) for _ in range(nseq(n_total))]
+        seqs += [[gen_bremsfn_case(rng, mk_style(name))] for _ in range(n_bfn)]
+        seqs += [make_sequence(impl, rng, gen_brems_case(impl, rng, mk_style(name, styles(name).dscale, 0)))
+                 for _ in range(nseq(n_brm))]
     seqs += [[gen_radfn_case(rng)] for _ in range(n_rfn)]
+    seqs += [[gen_gaunt_case(rng, consts)] for _ in range(n_gnt)]
     # corpus of past disagreements runs first
     corpus_dir = os.path.join(os.path.dirname(os.path.dirname(os.path.abspath(__file__))), "corpus", "C03")
     corpus = []
@@ -554,6 +691,7 @@ def run(ctx):
     seqs = [[c] for c in corpus] + seqs
     # run the implementation: every sequence on ONE attached model instance, point after point
     cases, pre_obs, transitions = [], [], {"pos->nonpos": 0, "nonpos->pos": 0, "composition_reset": 0, "sequences": 0}
+    fresh_fails, n_fresh_cmp, op_counts, route_counts = [], 0, {}, {}
     for sq in seqs:
         ctx.crumb({"sequence": sq})
         kind = sq[0]["kind"]
@@ -565,8 +703,13 @@ def run(ctx):
             obs = impl.run_brems_seq(sq)
         elif kind == 5:
             obs = [impl.run_bremsfn(sq[0])]
+        elif kind == 8:
+            obs = [impl.run_gaunt(sq[0], consts)]
         else:
             obs = [impl.run_radfn(sq[0])]
+        route_counts[sq[0].get("route", "n/a")] = route_counts.get(sq[0].get("route", "n/a"), 0) + 1
+        for st in sq[1:]:
+            op_counts[st.get("op", "none")] = op_counts.get(st.get("op", "none"), 0) + 1
         if len(sq) > 1:
             transitions["sequences"] += 1
             for a, b in zip(sq, sq[1:]):
@@ -582,6 +725,18 @@ def run(ctx):
                             transitions["nonpos->pos"] += 1
         for k, (c, o) in enumerate(zip(sq, obs)):
             c = dict(c, seq_step=k, seq_prefix=sq[:k] if k else [])
+            if k and kind in (1, 2, 3, 4, 6):
+                # the same point on a freshly built plasma + model (attached by the constructor)
+                single = dict(sq[k], op="none", route="ctor")
+                f = (impl.run_line_seq([single]) if kind in (1, 2, 3) else
+                     impl.run_total_seq([single]) if kind == 4 else impl.run_brems_seq([single]))[0]
+                same = (f.get("out") == o.get("out") and f["samples"] == o["samples"] and f.get("evals") == o.get("evals")
+                        and f.get("gaunt_z") == o.get("gaunt_z"))
+                n_fresh_cmp += 1
+                if not same:
+                    fresh_fails.append({"claim": "a re-used model instance gives the emission of a freshly built one at the same point",
+                                        "observed": {"reused": [o.get("out"), o["samples"]], "fresh": [f.get("out"), f["samples"]]},
+                                        "case": c, "case_index": len(cases)})
             cases.append(c)
             pre_obs.append(o)
 
@@ -591,8 +746,12 @@ def run(ctx):
     dist = {"by_kind": {}, "outcomes": {}, "comp_sizes": {}, "with_nonpositive_input": 0, "negative_coefficients": 0,
             "missing_rate": 0, "donor_counts": {}}
     names = {1: "excitation", 2: "recombination", 3: "thermal_cx", 4: "total_power", 5: "brems_function",
-             6: "bremsstrahlung", 7: "radiation_function"}
+             6: "bremsstrahlung", 7: "radiation_function", 8: "gaunt_factor", 0: "call_site"}
     nontrivial = 0
+    n_gaunt, edge_cases, n_rebased = 0, [], 0
+    n_probes, probe_fails = impl.second_order_probes()
+    for f in probe_fails:
+        search_fails.append(dict(f, case={"kind": 0, "probe": f["claim"]}, case_index=-1))
     for ci, case in enumerate(cases):
         kind = case["kind"]
         dist["by_kind"][names[kind]] = dist["by_kind"].get(names[kind], 0) + 1
@@ -609,6 +768,10 @@ def run(ctx):
                 coq_zll(obs["tsamp"])))
             okey = obs["out"][0] if isinstance(obs["out"], tuple) else obs["out"]
             fs = search_line(impl, case, obs)
+            if obs["fresh"] and obs["target"]:
+                want_args = [list(case["shape_args"][0]), sorted(case["shape_args"][1])] if case.get("shape_args") else [[], []]
+                if [list(obs["shape_args"][0]), [list(x) for x in obs["shape_args"][1]]] != [want_args[0], [list(x) for x in want_args[1]]]:
+                    fs.append({"claim": "lineshape_args / lineshape_kwargs are handed to the line shape class", "observed": obs["shape_args"]})
             if isinstance(obs["out"], tuple) and (ci % (4 if quick else 8) == 0):
                 fs += search_linearity(impl, case, obs)
             if ci % (5 if quick else 10) == 0:
@@ -640,11 +803,20 @@ def run(ctx):
             sq = orc.sqrt_tab(case["te"])
             ex = [orc.exp_entry(case["te"], case["wvl"])]
             g = case["gaunt"]
-            texts.append("check_bremsfn gen_consts %s %s %s %s %s %s %s %s %s %s %s" % (
-                coq_tab(sq), coq_tab(ex), qz(g[0]), qz(g[1]), qz(g[2]), qz(g[3]), qz(case["ne"]), qz(case["te"]),
-                "[" + "; ".join("(%s, %s)" % (qz(z), qz(n)) for z, n in case["zs"]) + "]", qz(case["wvl"]), qz(obs["value"])))
-            okey = "value"
             fs = []
+            if obs["rejected"]:
+                # read-only and non-contiguous float64 arrays are refused by the typed memoryview of the unchanged code
+                # (ValueError): the expected outcome for these forms; any other form must be accepted
+                texts.append("true")
+                okey = "rejected-array-form"
+                if not obs["expected_rejection"]:
+                    fs.append({"claim": "BremsFunction accepts every array-like of densities / charges except read-only and "
+                                        "non-contiguous float64 arrays", "observed": "ValueError for forms %s" % (case["forms"],)})
+            else:
+                texts.append("check_bremsfn gen_consts %s %s %s %s %s %s %s %s %s %s %s" % (
+                    coq_tab(sq), coq_tab(ex), qz(g[0]), qz(g[1]), qz(g[2]), qz(g[3]), qz(case["ne"]), qz(case["te"]),
+                    "[" + "; ".join("(%s, %s)" % (qz(z), qz(n)) for z, n in case["zs"]) + "]", qz(case["wvl"]), qz(obs["value"])))
+                okey = "value"
             if sum(1 for z, n in case["zs"] if n > 0 and z > 0) >= 2:
                 nontrivial += 1
         elif kind == 6:
@@ -676,6 +848,30 @@ def run(ctx):
                                     "and only then", "observed": obs["calls"]})
             if len(obs["gaunt_z"]) >= 2:
                 nontrivial += 1
+        elif kind == 8:
+            obs = pre_obs[ci]
+            n_gaunt += 1
+            fs = []
+            b = obs["bounds"]
+            code = (0 if case["z"] == 0 else 1 if (obs["u_d"] >= b[1] or obs["g2_d"] >= b[3]) else
+                    2 if (obs["u_d"] < b[0] or obs["g2_d"] < b[2]) else 3)
+            okey = ["zero", "classical", "born", "interpolated"][code] + ("@" + case.get("boundary", "none") if case.get("boundary", "none") != "none" else "")
+            if obs["range"] != ((b[0], b[1]), (b[2], b[3])):
+                fs.append({"claim": "u_range / gamma2_range report the bounds of the table", "observed": obs["range"]})
+            if "error" in obs or "twin_error" in obs:
+                texts.append("true")
+                if "error" in obs and "twin_error" not in obs:
+                    fs.append({"claim": "the Gaunt factor is defined for every z, temperature > 0 and wavelength > 0",
+                               "observed": obs["error"]})
+                else:
+                    okey += ":interpolator-edge"
+                    edge_cases.append({"case": case, "obs": obs})
+            else:
+                texts.append("check_gaunt gen_consts %s %s %s %s %s %s %s %s %s %s %s %s %s %s" % (
+                    qz(consts["RYDBERG_CONSTANT_EV"]), qz(math.sqrt(3.0)), qz(b[0]), qz(b[1]), qz(b[2]), qz(b[3]),
+                    qz(case["z"]), qz(case["te"]), qz(case["wvl"]), qz(obs["u_d"]), qz(obs["g2_d"]), qz(obs["ln4u"]),
+                    qz(obs["interp"]), qz(obs["value"])))
+            nontrivial += 1
         else:
             obs = pre_obs[ci]
             texts.append("check_radfn %s %s %s %d%%nat %s" % (qz(case["phi"]), qz(case["minw"]), qz(case["maxw"]), case["bins"],
@@ -683,12 +879,19 @@ def run(ctx):
             okey = "bins"
             fs = []
             nontrivial += 1
+        if obs.get("rebased") is not None:
+            b0, s2 = obs["rebased"]
+            n_rebased += 1
+            if s2 != [b0 + v for v in obs["samples"]]:
+                fs.append({"claim": "emission is ADDED to what the spectrum already holds (second call at the same point, same instance)",
+                           "observed": s2, "expected": [b0 + v for v in obs["samples"]]})
         dist["outcomes"][names[kind] + ":" + str(okey)] = dist["outcomes"].get(names[kind] + ":" + str(okey), 0) + 1
         metas.append(case)
         observations.append(obs)
         for f in fs:
             search_fails.append(dict(f, case=case, case_index=ci))
 
+    search_fails += fresh_fails
     # dedicated search inputs for the sign clause of thermal CX: one donor with a negative density
     n_neg = 0
     for _ in range(6 if quick else 40):
@@ -774,7 +977,11 @@ def run(ctx):
                 "point; non-trivial = the model emits and (thermal CX) has >= 2 donors / (total power) >= 2 terms evaluated / "
                 "(bremsstrahlung) >= 2 ions take part",
         "distribution": dict(dist, styles="half dyadic (products exact in double), half realistic magnitudes (1e15..1e21 m^-3, 0.1..1e4 eV)",
-                             sign_probes=n_neg, corpus_cases=len(corpus), sequences=dict(transitions, length=SEQ_LEN,
+                             sign_probes=n_neg, corpus_cases=len(corpus), mutation_ops_between_points=op_counts,
+                             attachment_routes=route_counts, fresh_object_comparisons=n_fresh_cmp,
+                             second_order_probes=n_probes, gaunt_factor_cases=n_gaunt,
+                             second_calls_into_prefilled_spectrum=n_rebased, gaunt_interpolator_edge_cases=len(edge_cases),
+                             sequences=dict(transitions, length=SEQ_LEN,
                              rule="line, total-power and bremsstrahlung cases are consecutive points of one plasma evaluated on ONE "
                                   "model instance; every evaluation is compared with the model's value for that point alone")),
         "tolerance": {"line_and_total_radiance": "2^-44 * sum of |terms|", "accessor_calls/evaluate_args/lineshape_target/error_kind": "exact",
@@ -782,9 +989,12 @@ def run(ctx):
                       "rtol 1e-5) / 2^-32 (rtol 1e-13) against %d-point Gauss-Legendre of the model evaluated in Coq" % GL_ORDER,
                       "radiation_function": "2^-48", "search": "1e-12 (formulas), 1e-9 (GaussianLine integral), 3e-5 / 1e-9 (bremsstrahlung bins)"},
         "partial": ["integrator and Gaunt factor are oracles (C03_brems_bin_average_partial: exact-integrator hypothesis)",
-                    "InterpolatedFreeFreeGauntFactor (gaunt.pyx) itself is not modelled: the property only requires that the provider's "
-                    "Gaunt factor is the one used, which is observed exactly",
-                    "line shapes are an oracle with unit integral (property C02)"],
+                    "InterpolatedFreeFreeGauntFactor (gaunt.pyx): only its branch structure is modelled (Model/C03_Gaunt.v, tie only, no "
+                    "theorem); log and the 2-D interpolator are oracles (libm, a twin raysect interpolator)",
+                    "line shapes are an oracle with unit integral (property C02)",
+                    "observation, not a C03 violation: constants.pyx carries the CODATA 2014 values of HC_EV_NM (1239.8419738620933, "
+                    "8.4e-9 from h*c/e of the 2018 constants in the same file) and BOHR_MAGNETON (5.78838180123e-5, 8.3e-10 from 2018) under "
+                    "a 'CODATA 2018' comment; neither is used by the passive emission models; consts_all_ok holds them to 2^-26 / 2^-29 only"],
     })
     ctx.coverage["samples"] = [metas[0], metas[len(metas) // 2]]
     ctx.grep_gate()
